@@ -239,6 +239,9 @@ class Resolver:
                         v = n.value
                         if isinstance(v, ast.Call) and isinstance(v.func, ast.Name) and v.func.id == "iter" and v.args:
                             v = v.args[0]
+                            while isinstance(v, ast.Call) and isinstance(v.func, ast.Name) and v.func.id in ("tuple", "list", "sorted", "reversed") \
+                                    and len(v.args) == 1:
+                                v = v.args[0]  # a snapshot of the collection has the collection's elements
                             if isinstance(v, ast.Call) and isinstance(v.func, ast.Attribute) and v.func.attr == "values":
                                 v = v.func.value
                             out |= self.elem_type(self.typeof(v, it, (), depth + 1), depth + 1)
@@ -301,6 +304,9 @@ class Resolver:
                         elif isinstance(n, ast.AnnAssign) and isinstance(n.target, ast.Name) and n.target.id == name:
                             found = True
                             out |= self.annot_types(n.annotation, f.module)
+                        elif isinstance(n, ast.NamedExpr) and isinstance(n.target, ast.Name) and n.target.id == name:
+                            found = True
+                            out |= self.typeof(n.value, f, events, depth + 1)
                         elif isinstance(n, (ast.For, ast.AsyncFor)) and isinstance(n.target, ast.Name) and n.target.id == name:
                             found = True
                             out |= self.iter_elem_types(n.iter, f, events, depth + 1)
@@ -369,6 +375,12 @@ class Resolver:
                 return self.ret_type(g[1], depth + 1)
             if g[0] in ("ext", "builtin"):
                 tag = STD_CTORS.get(nm)
+                if nm in ("tuple", "list", "set", "frozenset", "sorted", "reversed", "deque", "iter") and len(t.args) == 1 and depth < 10:
+                    # a copy / snapshot / iterator of a typed collection keeps its element type: <list:Elem>
+                    base = (tag or "<list>")[1:-1]
+                    elems = self.iter_elem_types(t.args[0], fn, events, depth + 1)
+                    if elems:
+                        return {f"<{base}:{e}>" for e in elems}
                 return {tag} if tag else set()
             return set()
         if isinstance(f, ast.Attribute):
